@@ -231,6 +231,24 @@ impl Ctx {
         }
     }
 
+    /// For verdicts that rest on a time measurement (C15's CPU-ratio rule, child time-outs): the
+    /// case is re-measured; it is a violation only if it fails again (the numbers in the message
+    /// may differ), otherwise it is recorded as inconclusive in the evidence and nothing is
+    /// reported — a busy machine must never raise an alarm.
+    pub fn violation_timing(&self, msg: String, case: Value, recheck: &dyn Fn() -> Option<String>) {
+        if recheck().is_none() {
+            let mut e = self.extra.lock().unwrap();
+            let mut v = e.get("inconclusive_timing").and_then(|v| v.as_array().cloned()).unwrap_or_default();
+            v.push(json!({"first_measurement": msg, "case": case}));
+            e.insert("inconclusive_timing".to_string(), Value::Array(v));
+            return;
+        }
+        let n = self.violation_count.fetch_add(1, Ordering::SeqCst);
+        if n < 25 {
+            self.violations.lock().unwrap().push(Violation { msg, case });
+        }
+    }
+
     fn violation_tagged(&self, tag: &str, msg: String, case: Value, recheck: &dyn Fn() -> Option<String>) {
         let r1 = recheck();
         let r2 = recheck();
